@@ -64,7 +64,19 @@ static std::string classify_sanitizer(const std::string &errfile) {
     size_t p = t.find("ERROR: AddressSanitizer: ");
     std::string kind = "unknown", where;
     if (p != std::string::npos) { size_t e = t.find_first_of(" \n", p + 25); kind = t.substr(p + 25, e - (p + 25)); }
-    else if ((p = t.find("runtime error: ")) != std::string::npos) { size_t e = t.find('\n', p); kind = "ub:" + t.substr(p + 15, std::min<size_t>(40, e - (p + 15))); }
+    else if ((p = t.find("runtime error: ")) != std::string::npos) {
+        // keep the words, drop addresses and numbers: the class of a violation must not depend on where the heap happened to be
+        size_t e = t.find('\n', p);
+        std::string msg = t.substr(p + 15, e - (p + 15)), w, out;
+        std::vector<std::string> words;
+        for (size_t i = 0; i <= msg.size(); i++) {
+            char c = i < msg.size() ? msg[i] : ' ';
+            if (c == ' ') { if (!w.empty() && !(w.size() > 1 && w[0] == '0' && w[1] == 'x') && !isdigit((unsigned char)w[0]) && w[0] != '-') words.push_back(w); w.clear(); }
+            else if (isalnum((unsigned char)c) || c == '_' || c == '-') w += c;
+        }
+        for (size_t i = 0; i < words.size() && i < 6; i++) out += (i ? "_" : "") + words[i];
+        kind = "ub:" + out;
+    }
     else if (t.find("LeakSanitizer") != std::string::npos) kind = "leak";
     // first frame inside qlibc
     size_t q = 0;
